@@ -169,7 +169,7 @@ func mapOrderN(e *Env, scope map[*ssa.Function]bool, floor int) {
 						if al, ok := x.Addr.(*ssa.Alloc); ok && !body[al.Block()] && !loopVars[al] {
 							if _, isConst := x.Val.(*ssa.Const); !isConst {
 								if _, isApp := x.Val.(*ssa.Call); !isApp {
-									bad = append(bad, "stores "+short(prov.Of(x.Val))+" to outer variable "+al.Comment+" ("+e.P.InstrPos(in)+")")
+									bad = append(bad, "stores "+short(prov.Of(x.Val))+" to outer variable "+prov.CanonLocal(al.Parent(), al.Comment)+" ("+e.P.InstrPos(in)+")")
 								}
 							}
 						}
@@ -431,6 +431,16 @@ var writerArgs = map[string]int{
 	"hex.Decode": 0, "(*base64.Encoding).Decode": 1, "invoke:io.Reader.Read": 1, "invoke:hash.Hash.Sum": 1,
 }
 
+// readOnlyMethods: pointer-receiver methods of stdlib types that do not
+// modify their receiver.
+var readOnlyMethods = map[string]bool{
+	"(*regexp.Regexp).MatchString": true, "(*regexp.Regexp).FindStringSubmatch": true, "(*regexp.Regexp).Match": true,
+	"(*base64.Encoding).EncodeToString": true, "(*base64.Encoding).DecodeString": true, "(*base64.Encoding).Encode": true,
+	"(*base32.Encoding).EncodeToString": true, "(*base32.Encoding).DecodeString": true,
+	"(*big.Int).Cmp": true, "(*big.Int).Sign": true, "(*big.Int).Bytes": true, "(*url.URL).String": true,
+	"(*time.Location).String": true,
+}
+
 func globalsReadOnly(e *Env) {
 	// struct fields into which a global-derived slice is stored alias the global
 	alias := map[string]string{}
@@ -481,7 +491,18 @@ func globalsReadOnly(e *Env) {
 					target, what = x.Map, "map update"
 				case *ssa.Call:
 					name := prov.CalleeName(&x.Call)
-					if idx, ok := writerArgs[name]; ok {
+					// a pointer-receiver method of a type outside the module, called on a
+					// package-level variable of the module: its body is not analysed here, so
+					// it counts as a write unless it is a known read-only method
+					// (sync.Pool.Get/Put, sync.Map.Store, bytes.Buffer.Write, ... all mutate)
+					if callee := x.Call.StaticCallee(); callee != nil && !e.P.InModule(callee) && callee.Signature.Recv() != nil && len(x.Call.Args) > 0 {
+						if _, ptr := callee.Signature.Recv().Type().Underlying().(*types.Pointer); ptr && !readOnlyMethods[name] {
+							if _, ok := derivedFromGlobal(x.Call.Args[0], alias, 0); ok {
+								target, what = x.Call.Args[0], "receiver of "+name
+							}
+						}
+					}
+					if idx, ok := writerArgs[name]; ok && target == nil {
 						args := x.Call.Args
 						if x.Call.IsInvoke() {
 							args = append([]ssa.Value{x.Call.Value}, args...)
